@@ -273,7 +273,8 @@ def hist_scenario(c, statefile):
         if boundary == "r":
             nrest += 1
             rf = "%s.r%d" % (statefile, nrest)
-            L += ["save text %s" % rf, "fresh"] + cfg + ["load %s" % rf]
+            # formatted and unformatted state files alternate (histogram write_state_data/read_state_data on a memory_stream)
+            L += ["save %s %s" % ("binary" if (c["id"] + nrest) % 2 else "text", rf), "fresh"] + cfg + ["load %s" % rf]
         elif boundary:
             L.append("runboundary")
         L.append("step")
@@ -422,7 +423,7 @@ def meta_state_scenario(r, k):
         for d, v in enumerate(vs):
             L.append("pos %d 0 0 %r" % (d + 1, v["lower"] + v["w"] * r.uniform(1.5, v["nx"] - 1.5)))
         L.append("step")
-    L += ["save text meta%d.state" % k, "postrun", "prefix metaB%d" % k, "fresh"] + cfg + ["load meta%d.state" % k, "postrun"]
+    L += ["save %s meta%d.state" % ("binary" if k % 2 else "text", k), "postrun", "prefix metaB%d" % k, "fresh"] + cfg + ["load meta%d.state" % k, "postrun"]
     return vs, "\n".join(L) + "\n"
 
 
@@ -496,6 +497,35 @@ step
 step
 save text vec.state
 """
+
+
+BAD_HIST_CONFIGS = [
+    ("gatherVectorColvars on a scalar variable", "distanceZ {\n    main { atomNumbers 1 }\n    ref { dummyAtom (0,0,0) }\n    axis (0,0,1)\n  }", None,
+     "  gatherVectorColvars on\n  histogramGrid {\n    lowerBoundary 0\n    upperBoundary 4\n    width 1\n  }"),
+    ("a vector variable without gatherVectorColvars", "cartesian {\n    atoms { atomNumbers 1 2 }\n  }", None, ""),
+    ("gathered vectors of different lengths", "cartesian {\n    atoms { atomNumbers 1 2 }\n  }", "cartesian {\n    atoms { atomNumbers 1 }\n  }",
+     "  gatherVectorColvars on\n  histogramGrid {\n    lowerBoundary 0 0\n    upperBoundary 4 4\n    width 1 1\n  }"),
+    ("gathered vectors without a histogramGrid block", "cartesian {\n    atoms { atomNumbers 1 2 }\n  }", None, "  gatherVectorColvars on"),
+]
+
+
+def check_bad_histogram_configs(run, vsim, d):
+    """configurations the histogram must refuse with an input error (and without crashing)"""
+    for k, (what, comp0, comp1, opts) in enumerate(BAD_HIST_CONFIGS):
+        L = ["natoms 3", "new", "config END", "colvar {", "  name v0", "  " + comp0, "}"]
+        if comp1:
+            L += ["colvar {", "  name v1", "  " + comp1, "}"]
+        L += ["histogram {", "  name h", "  colvars v0" + (" v1" if comp1 else "")] + ([opts] if opts else []) + ["}", "END", "pos 1 0 0 1", "step"]
+        scn = "\n".join(L) + "\n"
+        sc = os.path.join(d, "badh%d.scn" % k)
+        open(sc, "w").write(scn)
+        rc, o, e = V.sh([vsim, sc], cwd=d, timeout=60)
+        run.count("bad-hist-config%d" % k, True)
+        run.dist("hist:bad-config")
+        if rc != 0 or "CONFIG err=" not in o or "nbias=0" not in o or "err=ok" in o.split("CONFIG")[1].split("\n")[0]:
+            run.violation("hist:bad-config", "a histogram with %s is not refused with an error (rc=%d, %s)" % (
+                what, rc, o.split("CONFIG")[1].split("\n")[0] if "CONFIG" in o else o[-100:]), {"kind": "hist", "scenario": scn})
+        os.remove(sc)
 
 
 def check_vector_histogram(run, vsim, d):
@@ -709,6 +739,7 @@ def check(run):
     # grid files: writers/readers of the three forms (+ OpenDX header), model vs real code, round-trip oracle
     gridio.run_io(run, V.rng("C15io"), unit, model, 240 if quick else 6000)
     gridio.run_round3(run, V.rng("C15r3"), unit, model, 200 if quick else 5000)
+    gridio.run_round4(run, V.rng("C15r4"), unit, model, 300 if quick else 6000)
 
     # histogram scenarios through the engine simulator
     d = V.scratch("C15")
@@ -748,6 +779,7 @@ def check(run):
             if os.path.exists(f):
                 os.remove(f)
     check_meta_states(run, V.rng("C15meta"), vsim, d, 6 if quick else 60)
+    check_bad_histogram_configs(run, vsim, d)
     if check_vector_histogram(run, vsim, d):
         check_vector_scenarios(run, V.rng("C15vec"), vsim, model, d, 30 if quick else 400)
     run.cov["correspondence"].update({"unit_cases": len(cases), "hist_scenarios": len(hcases)})
